@@ -121,125 +121,212 @@ def pipe_flags(repo, res):
 FACT = "ffcx.ir.analysis.factorization"
 
 
+class _CondMarker:
+    """The condition operand of a conditional, with the truth value assumed in this run."""
+
+    def __init__(self, value):
+        self.value = value
+
+
+def _rat_conj(r):
+    """Complex conjugation on the symbolic domain: factor symbols a -> a* (involution); argument symbols u<k> are real."""
+    from ..absint import Rat
+
+    def cpoly(p):
+        out = {}
+        for mono, c in p.items():
+            m2 = []
+            for v, k in mono:
+                if v.startswith("u"):
+                    m2.append((v, k))
+                elif v.endswith("*"):
+                    m2.append((v[:-1], k))
+                else:
+                    m2.append((v + "*", k))
+            out[tuple(sorted(m2))] = c
+        return out
+
+    return Rat(cpoly(r.num), cpoly(r.den))
+
+
+def _fact_run(repo, handler_name, fac_spec, sf_spec, cond_value=None):
+    """Interpret one factorisation handler on symbolic operands.
+
+    fac_spec: per operand a dict {argkey: symbol name} (empty = argument-free operand)
+    sf_spec:  per operand the scalar expression (Rat) or "cond" or None
+    Returns (meaning of the result, result keys, meanings of the operands).
+    """
+    from ..absint import Interp, Node, Rat, _PyCall
+    from ..lnodes_model import load_classes
+
+    it = Interp(repo, load_classes(repo), primary=FACT)
+    nodes: dict = {}
+    F = Node("ExpressionGraph", nodes=nodes)
+
+    def insert(_F, expr):
+        i = len(nodes)
+        nodes[i] = {"expression": expr}
+        return i
+
+    def cond(c, t, f):
+        if not isinstance(c, _CondMarker):
+            return Rat.var("NOT_THE_CONDITION")
+        return t if c.value else f
+
+    it.overrides = {
+        "graph_insert": _PyCall(insert),
+        "conditional": _PyCall(cond),
+        "Conj": _PyCall(lambda x: _rat_conj(x)),
+        "as_ufl": _PyCall(lambda x: Rat.const(__import__("fractions").Fraction(x))),
+    }
+    fac = []
+    operand_meaning = []
+
+    def argprod(key):
+        out = Rat.const(1)
+        for a_ in key:
+            out = out * Rat.var(f"u{a_}")
+        return out
+
+    for spec, sfx in zip(fac_spec, sf_spec):
+        d = {}
+        mean = Rat.const(0)
+        for key, sym in spec.items():
+            d[key] = insert(F, Rat.var(sym))
+            mean = mean + Rat.var(sym) * argprod(key)
+        fac.append(d)
+        if not spec:
+            mean = sfx if isinstance(sfx, Rat) else None
+        operand_meaning.append(mean)
+    sf = [(_CondMarker(cond_value) if isinstance(x, str) else x) for x in sf_spec]
+    h = repo.mod(FACT).func(handler_name)
+    out = it.call_func(h.node, [None, fac, sf, F])
+    if not isinstance(out, dict):
+        raise AnalysisError(f"{handler_name}: result is not a factor map")
+    total = Rat.const(0)
+    for key, fi in out.items():
+        if fi not in nodes:
+            from ..absint import Raised
+
+            raise Raised(f"the factor recorded for key {key} is {fi!r}, which is not a node of the factorisation graph")
+        total = total + nodes[fi]["expression"] * argprod(key)
+    return total, list(out.keys()), operand_meaning
+
+
 @rule(
     "FACT-LAWS",
     ["C01"],
-    "each handler of the argument factorisation inserts the combination required by its distributive "
-    "law, recognised by operand roles: Sum f0+f1 per key (absent side passes through), Product scalar x "
-    "each factor and factor x factor with the sorted union key, Division factor / scalar with an "
-    "argument-free divisor, Conj Conj(factor), Conditional conditional(c, f1|0, f2|0) over the union of keys "
-    "with an argument-free condition",
-    min_instances=11,
+    "each handler of the argument factorisation (Sum, Product, Division, Conditional; Conj: CONJ-LAW too) is "
+    "interpreted from source on symbolic operands: with factors a_k of argument keys k, the meaning "
+    "sum_k result[k] * prod(args of k) must equal the operation applied to the operands' meanings (polynomial "
+    "normal form; conditionals under both truth values of the condition), and result keys are sorted tuples",
+    min_instances=13,
 )
 def fact_laws(repo, res):
+    from ..absint import Raised, Rat
+
     m = repo.mod(FACT)
+    S = Rat.var("s")
+    Z = Rat.const(0)
+    cases = [
+        # (handler, label, fac specs, sf specs, expected(op meanings, cond), cond values)
+        ("handle_sum", "overlapping keys", [{(0,): "a", (1,): "b"}, {(1,): "c", (2,): "d"}], [None, None], lambda M, c: M[0] + M[1], (None,)),
+        ("handle_sum", "rank-2 keys", [{(0, 1): "a", (0, 2): "b"}, {(0, 2): "c"}], [None, None], lambda M, c: M[0] + M[1], (None,)),
+        ("handle_product", "scalar * arg", [{}, {(0,): "a", (1,): "b"}], [S, None], lambda M, c: M[0] * M[1], (None,)),
+        ("handle_product", "arg * scalar", [{(0,): "a", (1,): "b"}, {}], [None, S], lambda M, c: M[0] * M[1], (None,)),
+        ("handle_product", "arg * arg", [{(1,): "a", (2,): "b"}, {(0,): "c", (3,): "d"}], [None, None], lambda M, c: M[0] * M[1], (None,)),
+        ("handle_division", "arg / scalar", [{(0,): "a", (1,): "b"}, {}], [None, S], lambda M, c: M[0] / M[1], (None,)),
+        ("handle_conj", "conj", [{(0,): "a", (1,): "b"}], [None], lambda M, c: _rat_conj(M[0]), (None,)),
+        ("handle_conditional", "both branches, overlapping keys", [{}, {(0,): "a", (1,): "b"}, {(1,): "c", (2,): "d"}], ["cond", None, None],
+         lambda M, c: M[1] if c else M[2], (True, False)),
+        ("handle_conditional", "true branch only", [{}, {(0,): "a"}, {}], ["cond", None, Z], lambda M, c: M[1] if c else Z, (True, False)),
+        ("handle_conditional", "false branch only", [{}, {}, {(0,): "a", (2,): "b"}], ["cond", Z, None], lambda M, c: Z if c else M[2], (True, False)),
+    ]
+    for hname, label, facs, sfs, expect, conds in cases:
+        h = m.func(hname)
+        res.functions.add(h.key)
+        for cv in conds:
+            key = f"{h.key}:law:{label}" + ("" if cv is None else f":condition={cv}")
+            res.ob(key)
+            try:
+                got, keys, M = _fact_run(repo, hname, facs, sfs, cv)
+            except Raised as e:
+                res.fail(key, f"{hname} raises ({e.what}) on {label} ({facs})", m.line(h.node))
+                continue
+            want = expect(M, cv)
+            if not (got == want):
+                res.fail(key, f"{hname} on {label}: operands {[dict(f) for f in facs]} (scalar {['cond' if isinstance(x, str) else ('-' if x is None else 's/0') for x in sfs]}) give "
+                         f"factors whose meaning {_show(got)} differs from the operation's {_show(want)}"
+                         + ("" if cv is None else f" when the condition is {cv}"), m.line(h.node))
+            bad = [k for k in keys if not isinstance(k, tuple) or list(k) != sorted(k)]
+            if bad:
+                res.fail(key, f"{hname} on {label}: result key {bad[0]!r} is not a sorted tuple (the same argument pair would be recorded twice)", m.line(h.node))
 
-    def src(q):
-        f = m.func(q)
-        res.functions.add(f.key)
-        return f, ast.unparse(f.node)
 
-    # ---- Sum
-    f, s = src("handle_sum")
-    key = f"{f.key}:law"
-    res.ob(key)
-    mm = _find(s, r"(?P<a>\w+) = F\.nodes\[(?P<ia>\w+)\]\['expression'\]\n\s+(?P<b>\w+) = F\.nodes\[(?P<ib>\w+)\]\['expression'\]\n\s+(?P<r>\w+) = graph_insert\(F, (?P<e>[^\n]+)\)", "sum of two factors")
-    e = mm.group("e").replace(" ", "")
-    if e not in (f"{mm.group('a')}+{mm.group('b')}", f"{mm.group('b')}+{mm.group('a')}"):
-        res.fail(key, f"factors of equal argument key are combined as `{mm.group('e')}`, not added (f*arg + g*arg = (f+g)*arg)", m.line(f.node))
-    key = f"{f.key}:pass-through"
-    res.ob(key)
-    pt = _find(s, r"(?P<i0>\w+) = fac0\.get\((?P<k>\w+)\)\n\s+(?P<i1>\w+) = fac1\.get\((?P<k2>\w+)\)\n\s+if (?P<t1>\w+) is None:\n\s+(?P<r>\w+) = (?P<v1>\w+)\n\s+elif (?P<t2>\w+) is None:\n\s+(?P<r2>\w+) = (?P<v2>\w+)", "pass-through of one-sided keys")
-    ok = pt.group("k") == pt.group("k2") and {pt.group("t1"), pt.group("v1")} == {pt.group("i0"), pt.group("i1")} and pt.group("t1") != pt.group("v1") \
-        and {pt.group("t2"), pt.group("v2")} == {pt.group("i0"), pt.group("i1")} and pt.group("t2") != pt.group("v2") and pt.group("t1") != pt.group("t2")
-    if not ok:
-        res.fail(key, "a key present in only one summand does not pass that summand's factor through", m.line(f.node))
-    if not re.search(rf"factors\[{pt.group('k')}\] = {pt.group('r')}\b", s):
-        res.fail(key, "the combined factor is not stored under its argument key", m.line(f.node))
-    key = f"{f.key}:all-keys"
-    res.ob(key)
-    if not re.search(r"argkeys = set\(fac0\) \| set\(fac1\)", s) or not re.search(r"for (\w+) in argkeys", s):
-        res.fail(key, "the sum does not range over the union of both summands' argument keys (terms are dropped)", m.line(f.node))
-    # ---- Product
-    f, s = src("handle_product")
-    key = f"{f.key}:scalar-times-factor"
-    res.ob(key)
-    a = _find(s, r"elif not fac0:.*?(?P<sc>\w+) = sf\[0\]\n.*?for (?P<k>\w+) in sorted\(fac1\):\n\s+(?P<fx>\w+) = F\.nodes\[fac1\[(?P<k2>\w+)\]\]\['expression'\]\n\s+factors\[(?P<k3>\w+)\] = graph_insert\(F, (?P<e>[^\n]+)\)", "scalar * argument-dependent")
-    b = _find(s, r"elif not fac1:.*?(?P<sc>\w+) = sf\[1\]\n.*?for (?P<k>\w+) in sorted\(fac0\):\n\s+(?P<fx>\w+) = F\.nodes\[fac0\[(?P<k2>\w+)\]\]\['expression'\]\n\s+factors\[(?P<k3>\w+)\] = graph_insert\(F, (?P<e>[^\n]+)\)", "argument-dependent * scalar")
-    for mm_ in (a, b):
-        e = mm_.group("e").replace(" ", "")
-        if not (mm_.group("k") == mm_.group("k2") == mm_.group("k3")) or e not in (f"{mm_.group('sc')}*{mm_.group('fx')}", f"{mm_.group('fx')}*{mm_.group('sc')}"):
-            res.fail(key, f"scalar times argument-dependent operand is recorded as `{mm_.group('e')}` under key `{mm_.group('k3')}`", m.line(f.node))
-    key = f"{f.key}:factor-times-factor"
-    res.ob(key)
-    c = _find(s, r"for (?P<k0>\w+) in sorted\(fac0\):\n\s+(?P<f0>\w+) = F\.nodes\[fac0\[(?P<k0b>\w+)\]\]\['expression'\]\n\s+for (?P<k1>\w+) in sorted\(fac1\):\n\s+(?P<f1>\w+) = F\.nodes\[fac1\[(?P<k1b>\w+)\]\]\['expression'\]\n\s+"
-              r"(?P<ak>\w+) = (?P<kx>[^\n#]+?)\s*(?:#[^\n]*)?\n\s+factors\[(?P<ak2>\w+)\] = graph_insert\(F, (?P<e>[^\n]+)\)", "argument * argument")
-    e = c.group("e").replace(" ", "")
-    mu = re.fullmatch(r"tuple\(sorted\((.+)\)\)", c.group("kx").strip())
-    u = mu.group(1).replace(" ", "") if mu else "<" + c.group("kx").strip() + ">"
-    if not (c.group("k0") == c.group("k0b") and c.group("k1") == c.group("k1b") and c.group("ak") == c.group("ak2")
-            and e in (f"{c.group('f0')}*{c.group('f1')}", f"{c.group('f1')}*{c.group('f0')}") and u in (f"{c.group('k0')}+{c.group('k1')}", f"{c.group('k1')}+{c.group('k0')}")):
-        res.fail(key, f"product of two argument-dependent operands records `{c.group('e')}` under key `{c.group('kx').strip()}` "
-                 "(must be the sorted union of both operands' argument keys)", m.line(f.node))
-    # ---- Division
-    f, s = src("handle_division")
-    key = f"{f.key}:law"
-    res.ob(key)
-    d = _find(s, r"(?P<sc>\w+) = sf\[1\]\n.*?for (?P<k>\w+) in sorted\(fac0\):\n\s+(?P<fx>\w+) = F\.nodes\[fac0\[(?P<k2>\w+)\]\]\['expression'\]\n\s+factors\[(?P<k3>\w+)\] = graph_insert\(F, (?P<e>[^\n]+)\)", "factor / scalar")
-    if d.group("e").replace(" ", "") != f"{d.group('fx')}/{d.group('sc')}" or not (d.group("k") == d.group("k2") == d.group("k3")):
-        res.fail(key, f"division is recorded as `{d.group('e')}`, not factor / scalar divisor", m.line(f.node))
-    if not re.search(r"assert not fac1\b", s):
-        res.fail(key, "division by an argument-dependent expression is not rejected", m.line(f.node))
-    # ---- Conj
-    f, s = src("handle_conj")
-    key = f"{f.key}:law"
-    res.ob(key)
-    cj = _find(s, r"for (?P<k>\w+) in fac:\n\s+(?P<fx>\w+) = F\.nodes\[fac\[(?P<k2>\w+)\]\]\['expression'\]\n\s+factors\[(?P<k3>\w+)\] = graph_insert\(F, (?P<e>[^\n]+)\)", "conj of factor")
-    if cj.group("e").replace(" ", "") != f"Conj({cj.group('fx')})" or not (cj.group("k") == cj.group("k2") == cj.group("k3")):
-        res.fail(key, f"conj(f*arg) is recorded as `{cj.group('e')}`, not Conj(f)", m.line(f.node))
-    # ---- Conditional
-    f, s = src("handle_conditional")
-    key = f"{f.key}:law"
-    res.ob(key)
-    cd = _find(s, r"(?P<c>\w+) = sf\[0\]", "condition operand")
-    cc = _find(s, r"(?P<mas>\w+) = sorted\(set\(fac1\.keys\(\)\) \| set\(fac2\.keys\(\)\)\)", "union of branch keys")
-    lp = _find(s, r"for (?P<k>\w+) in (?P<mas>\w+):\n\s+(?P<i1>\w+) = fac1\.get\((?P<ka>\w+)\)\n\s+(?P<i2>\w+) = fac2\.get\((?P<kb>\w+)\)\n\s+"
-               r"(?P<t>\w+) = (?P<z1>\w+) if (?P<i1b>\w+) is None else F\.nodes\[(?P<i1c>\w+)\]\['expression'\]\n\s+"
-               r"(?P<e_>\w+) = (?P<z2>\w+) if (?P<i2b>\w+) is None else F\.nodes\[(?P<i2c>\w+)\]\['expression'\]\n\s+"
-               r"factors\[(?P<k3>\w+)\] = graph_insert\(F, conditional\((?P<a0>\w+), (?P<a1>\w+), (?P<a2>\w+)\)\)", "conditional per key")
-    ok = (lp.group("mas") == cc.group("mas") and lp.group("k") == lp.group("ka") == lp.group("kb") == lp.group("k3")
-          and lp.group("i1") == lp.group("i1b") == lp.group("i1c") and lp.group("i2") == lp.group("i2b") == lp.group("i2c")
-          and lp.group("a0") == cd.group("c") and lp.group("a1") == lp.group("t") and lp.group("a2") == lp.group("e_")
-          and lp.group("z1") == lp.group("z2") and re.search(rf"\b{lp.group('z1')} = as_ufl\(0\.0\)", s))
-    if not ok:
-        res.fail(key, "conditional(c, sum fi*ui, sum fj*uj) is not decomposed as conditional(c, fi|0, fj|0) per key with the true branch "
-                 "second and the false branch third", m.line(f.node))
-    if not re.search(r"assert not fac0\b", s):
-        res.fail(key, "an argument in the condition is not rejected", m.line(f.node))
-    # ---- driver: arguments start as 1*v; targets keep their keys
-    f, s = src("compute_argument_factorization")
-    key = f"{f.key}:argument-seed"
-    res.ob(key)
-    if not re.search(r"(\w+) = graph_insert\(F, as_ufl\(1\.0\)\)", s) or not re.search(r"factors = \{\(si,\): (\w+)\}", s):
-        res.fail(key, "a modified argument is not seeded with factor 1.0 under its own key", m.line(f.node))
-    key = f"{f.key}:dispatch"
-    res.ob(key)
-    if "factors = handler(v, fac, sf, F)" not in s or "fac = [S.nodes[d]['factors'] for d in deps]" not in s:
-        res.fail(key, "operands' factorizations are not passed to the handler in operand order", m.line(f.node))
-    # registration table: handler per UFL class
-    key = f"{FACT}:registrations"
-    res.ob(key)
-    regs = {}
-    for fn in m.funcs.values():
-        for dco in fn.node.decorator_list:
-            if isinstance(dco, ast.Call) and dotted(dco.func) == "handler.register" and dco.args:
-                regs[dotted(dco.args[0])] = fn.node.name
-    want = {"Sum": "handle_sum", "Product": "handle_product", "Conj": "handle_conj", "Division": "handle_division", "Conditional": "handle_conditional"}
-    if regs != want:
-        res.fail(key, f"factorization handlers are registered as {regs}; expected {want}", m.rel)
+def _show(r):
+    def poly(p):
+        terms = []
+        for mono, c in sorted(p.items()):
+            t = "*".join(v if k == 1 else f"{v}^{k}" for v, k in mono) or "1"
+            terms.append(t if c == 1 else f"{c}*{t}")
+        return " + ".join(terms) or "0"
+
+    return poly(r.num) if r.den == {(): 1} else f"({poly(r.num)})/({poly(r.den)})"
 
 
 IG = "ffcx.codegeneration.integral_generator"
+
+
+@rule(
+    "CONJ-LAW",
+    ["C09", "C01"],
+    "conj(sum_k f_k * arg_k) = sum_k conj(f_k) * arg_k: inside handle_conj every store into the returned factor "
+    "map, on every path, is graph_insert(F, Conj(<the factor expression of the same key>)); an argument-free operand "
+    "keeps the conjugated scalar; nothing passes through unconjugated (literals can be complex)",
+    min_instances=3,
+)
+def conj_law(repo, res):
+    m = repo.mod(FACT)
+    f = m.func("handle_conj")
+    res.functions.add(f.key)
+    loops = [n for n in ast.walk(f.node) if isinstance(n, ast.For) and isinstance(n.iter, ast.Name) and n.iter.id == "fac"]
+    key = f"{f.key}:law"
+    res.ob(key)
+    if len(loops) != 1 or not isinstance(loops[0].target, ast.Name):
+        raise AnalysisError("handle_conj: loop over the operand's factor map not found")
+    lp = loops[0]
+    k = lp.target.id
+    stores = [n for n in ast.walk(f.node) if isinstance(n, ast.Assign) and isinstance(n.targets[0], ast.Subscript)
+              and isinstance(n.targets[0].value, ast.Name) and n.targets[0].value.id == "factors"]
+    if not stores:
+        raise AnalysisError("handle_conj: no store into `factors`")
+    # names bound to the factor expression of key k
+    fx = {n.targets[0].id for n in ast.walk(lp) if isinstance(n, ast.Assign) and isinstance(n.targets[0], ast.Name)
+          and ast.unparse(n.value).replace('"', "'") == f"F.nodes[fac[{k}]]['expression']"}
+    for st in stores:
+        v = st.value
+        inside = any(x is st for x in ast.walk(lp))
+        ok = (inside and ast.unparse(st.targets[0].slice) == k and isinstance(v, ast.Call) and (call_name(v) or "") == "graph_insert"
+              and len(v.args) == 2 and ast.unparse(v.args[0]) == "F" and isinstance(v.args[1], ast.Call) and (call_name(v.args[1]) or "") == "Conj"
+              and len(v.args[1].args) == 1 and (ast.unparse(v.args[1].args[0]) in fx
+                                                or ast.unparse(v.args[1].args[0]).replace('"', "'") == f"F.nodes[fac[{k}]]['expression']"))
+        if not ok:
+            res.fail(key, f"handle_conj stores `{ast.unparse(v)}` under `{ast.unparse(st.targets[0].slice)}`: a factor of conj(f*arg) must be recorded as "
+                     "Conj(f) for every f - inner(u, (2+3j)*v) would otherwise be assembled with (2+3j) instead of (2-3j)", m.line(st))
+    key = f"{f.key}:scalar"
+    res.ob(key)
+    s_ = ast.unparse(f.node)
+    if not re.search(r"if fac:", s_) or "raise RuntimeError" not in s_ and not re.search(r"else:\n\s+(return|raise)", s_):
+        res.fail(key, "handle_conj no longer distinguishes argument-dependent operands", m.line(f.node))
+    # the table: Conj, Real, Imag handlers
+    key = f"{m.name}:handler-table"
+    res.ob(key)
+    decos = [ast.unparse(d).replace(" ", "") for d in f.node.decorator_list]
+    if not any(re.fullmatch(r"\w+\.register\(Conj\)", d) for d in decos) and not re.search(r"Conj: handle_conj", ast.unparse(m.tree)):
+        res.fail(key, "Conj is not dispatched to handle_conj", m.line(f.node))
+    others = [g for g in m.funcs.values() if g.node is not f.node and any(re.fullmatch(r"\w+\.register\(Conj\)", ast.unparse(d).replace(" ", "")) for d in g.node.decorator_list)]
+    if others:
+        res.fail(key, f"Conj is also registered to {others[0].qualname if hasattr(others[0], 'qualname') else others[0].key}", m.line(others[0].node))
 
 
 @rule(
@@ -414,6 +501,16 @@ def scope_key(repo, res):
                  m.line(call[0]))
 
 
+def _enclosing_if(root, target):
+    """Innermost ast.If under root whose body or orelse contains target."""
+    best = None
+    for n in ast.walk(root):
+        if isinstance(n, ast.If) and any(x is target for b in n.body + n.orelse for x in ast.walk(b)):
+            if best is None or any(x is n for x in ast.walk(best)):
+                best = n
+    return best
+
+
 def _guard_var_from_own_scope(fnode, guard) -> bool:
     """The guard tests a local that was read from self.scopes[(domain, quadrature_rule)]."""
     names = {n.id for n in ast.walk(guard.test) if isinstance(n, ast.Name)}
@@ -427,7 +524,7 @@ def _guard_var_from_own_scope(fnode, guard) -> bool:
 
 @rule(
     "QMETA-FLOW",
-    ["C11"],
+    ["C11", "C01"],
     "quadrature_degree / quadrature_rule of the integral metadata flow (with parameter binding checked at "
     "each call) through _group_integrands_by_quadrature_rule, create_quadrature_points_and_weights and "
     "create_quadrature into basix.make_quadrature; the estimated degree is used only when no non-negative "
@@ -442,15 +539,103 @@ def qmeta_flow(repo, res):
     s = ast.unparse(f.node)
     key = f"{f.key}:degree-selection"
     res.ob(key)
-    mm = _find(s, r"(?P<qd>\w+) = -1\n\s+if 'quadrature_degree' in (?P<md>\w+)\.keys\(\):\n\s+(?P<qd2>\w+) = (?P<md2>\w+)\['quadrature_degree'\]\n\s+if (?P<cond>[^\n]+):\n\s+(?P<qd4>\w+) = (?P<est>[^\n]+)\n",
-               "degree selection")
-    if mm.group("cond").replace(" ", "") != f"{mm.group('qd')}<0":
-        res.fail(key, f"the estimated degree replaces the requested one under `{mm.group('cond')}`; it may only do so when no non-negative "
-                 "degree was requested (a requested quadrature_degree must be honoured even if lower than the estimate)", an.line(f.node))
-    if not (mm.group("qd") == mm.group("qd2") == mm.group("qd4") and mm.group("md") == mm.group("md2")):
-        res.fail(key, "the requested degree is not taken from the metadata with the estimated degree as fallback for negative/absent values", an.line(f.node))
-    if "estimated_polynomial_degree" not in mm.group("est") or "max" not in mm.group("est"):
-        res.fail(key, f"fallback degree is `{mm.group('est')}`, not the (maximum) estimated polynomial degree", an.line(f.node))
+    # the update site names the variables that carry the selected degree / scheme
+    up = _find(s, r"metadata\.update\(\{'quadrature_degree': (?P<a>\w+), 'quadrature_rule': (?P<b>\w+)\}\)", "metadata update")
+    qd = up.group("a")
+    loop = None
+    for n in ast.walk(f.node):
+        if isinstance(n, ast.For) and ast.unparse(n.iter) in ("enumerate(integral_data.integrals)", "integral_data.integrals"):
+            loop = n
+    if loop is None:
+        raise AnalysisError("_analyze_form: loop over the integrals of one integral data not found")
+    upd = [c for c in calls_in(loop) if (call_name(c) or "").endswith("metadata.update") and "'quadrature_degree'" in ast.unparse(c)][0]
+    cfg = CFG(f.node)
+    from ..cfg import loop_carried
+
+    for var, what in ((qd, "degree"), (up.group("b"), "scheme")):
+        chains = loop_carried(cfg, loop, upd, var, set(f.params))
+        if chains:
+            ch = " <- ".join(f"{v}@{ln}" for v, ln in chains[0])
+            res.fail(key, f"the {what} written into integral i's metadata may be the value chosen for an earlier integral of the group ({ch}): "
+                     "x0*x1*dx(degree=2) + x0**6*dx would integrate the second term with the degree-2 rule", an.line(upd))
+    defs = [n for n in ast.walk(loop) if isinstance(n, ast.Assign) and any(isinstance(t, ast.Name) and t.id == qd for t in n.targets)]
+    reads_md = [d for d in defs if "'quadrature_degree'" in ast.unparse(d.value) and re.search(r"\bmetadata\b|\.metadata\(\)", ast.unparse(d.value))]
+    if not reads_md:
+        res.fail(key, "the requested degree is not read from the integral's metadata['quadrature_degree']", an.line(loop))
+    est = [d for d in defs if "estimated_polynomial_degree" in ast.unparse(d.value)]
+    if not est:
+        res.fail(key, "no fallback to the estimated polynomial degree", an.line(loop))
+    for d in est:
+        t = ast.unparse(d.value)
+        if "max" not in t:
+            res.fail(key, f"fallback degree is `{t}`, not the (maximum) estimated polynomial degree", an.line(d))
+        guard = _enclosing_if(loop, d)
+        if guard is None or qd not in {x.id for x in ast.walk(guard.test) if isinstance(x, ast.Name)}:
+            res.fail(key, "the estimated degree overwrites the requested one unconditionally", an.line(d))
+            continue
+        from .perm import _beval
+        import copy as _copy
+
+        # sub-expressions that compute the estimated degree are an arbitrary non-negative integer
+        test = _copy.deepcopy(guard.test)
+
+        class _Abs(ast.NodeTransformer):
+            def generic_visit(self, n):
+                if isinstance(n, (ast.Call, ast.Subscript, ast.Attribute)) and "estimated_polynomial_degree" in ast.unparse(n):
+                    return ast.Name(id="__est", ctx=ast.Load())
+                return super().generic_visit(n)
+
+        test = _Abs().visit(test)
+        names = {x.id for x in ast.walk(test) if isinstance(x, ast.Name)} - {qd}
+        in_body = any(x is d for b in guard.body for x in ast.walk(b))
+        wrong = None
+        for est_v in (0, 3, 7):
+            for v in (-3, -1, 0, 1, 4, 9):
+                env = {nm: est_v for nm in names}
+                if names - {"__est"}:
+                    # other names: values estimated earlier in the same iteration are treated alike only if they are
+                    # assigned from the estimated degree; anything else is not understood
+                    for nm in names - {"__est"}:
+                        srcs = [a for a in ast.walk(loop) if isinstance(a, ast.Assign) and any(isinstance(t, ast.Name) and t.id == nm for t in a.targets)]
+                        if not srcs or not all("estimated_polynomial_degree" in ast.unparse(a.value) for a in srcs):
+                            raise AnalysisError(f"_analyze_form: guard of the estimated-degree fallback `{ast.unparse(guard.test)}` uses `{nm}`, which is not understood")
+                env[qd] = v
+                try:
+                    got = bool(_beval(test, env))
+                except AnalysisError as ex:
+                    raise AnalysisError(f"_analyze_form: guard of the estimated-degree fallback `{ast.unparse(guard.test)}` not evaluable: {ex}")
+                if (got if in_body else not got) != (v < 0):
+                    wrong = v
+                    break
+            if wrong is not None:
+                break
+        if wrong is not None:
+            res.fail(key, f"the estimated degree replaces the requested one under `{ast.unparse(guard.test)}` (e.g. requested degree {wrong}); it may only "
+                     "do so when no non-negative degree was requested (a requested quadrature_degree must be honoured even if lower than the estimate)", an.line(guard))
+    # degree 0 is a legitimate request: the value read from the metadata must not pass through a truthiness test
+    for n in ast.walk(loop):
+        if isinstance(n, ast.BoolOp) and isinstance(n.op, ast.Or) and any("'quadrature_degree'" in ast.unparse(v) for v in n.values[:-1]):
+            res.fail(key, f"`{ast.unparse(n)}` replaces a requested quadrature degree of 0 (falsy) by the default: dx(degree=0) would be integrated "
+                     "with the estimated degree instead of the one-point rule", an.line(n))
+        if isinstance(n, (ast.If, ast.IfExp, ast.While)):
+            t = n.test
+            bare = [t] + ([t.operand] if isinstance(t, ast.UnaryOp) and isinstance(t.op, ast.Not) else []) + (list(t.values) if isinstance(t, ast.BoolOp) else [])
+            for b_ in bare:
+                if (isinstance(b_, ast.Name) and b_.id == qd) or (not isinstance(b_, (ast.Compare, ast.BoolOp, ast.UnaryOp)) and "'quadrature_degree'" in ast.unparse(b_)
+                                                                   and isinstance(b_, (ast.Subscript, ast.Call)) and ".get(" in ast.unparse(b_) + ".get(" and not ast.unparse(b_).startswith("isinstance")):
+                    if isinstance(b_, ast.Call) and not ast.unparse(b_.func).endswith(".get"):
+                        continue
+                    res.fail(key, f"`{ast.unparse(t)}` tests the truthiness of the requested degree: degree 0 would be treated as absent", an.line(n))
+    # a literal default must be negative, so that `absent` selects the estimate
+    for d in defs:
+        if isinstance(d.value, (ast.Constant, ast.UnaryOp)):
+            try:
+                c = const_value(d.value)
+            except ValueError:
+                continue
+            if isinstance(c, (int, float)) and c >= 0:
+                res.fail(key, f"default degree {c} is non-negative: integrals without quadrature_degree would not use their estimated degree", an.line(d))
+    mmqd = qd
     key = f"{f.key}:scheme-selection"
     res.ob(key)
     sc = _find(s, r"(?P<qr>\w+) = integral\.metadata\(\)\.get\('quadrature_rule', (?P<dflt>'\w+')\)", "scheme selection")
@@ -458,8 +643,7 @@ def qmeta_flow(repo, res):
         res.fail(key, f"default scheme is {sc.group('dflt')}", an.line(f.node))
     key = f"{f.key}:metadata-update"
     res.ob(key)
-    up = _find(s, r"metadata\.update\(\{'quadrature_degree': (?P<a>\w+), 'quadrature_rule': (?P<b>\w+)\}\)", "metadata update")
-    if up.group("a") != mm.group("qd") or up.group("b") != sc.group("qr"):
+    if up.group("a") != mmqd or up.group("b") != sc.group("qr"):
         res.fail(key, "the selected degree / scheme are not the ones written back into the integral metadata", an.line(f.node))
     if "integral_data.integrals[i] = integral.reconstruct(metadata=metadata)" not in s:
         res.fail(key, "the integral is not reconstructed with the updated metadata", an.line(f.node))
@@ -671,6 +855,76 @@ def opt_gate(repo, res):
     if not (re.search(r"blocked_form = ufl\.extract_blocks\(form, replace_argument=False\)", s) and re.search(r"if blocked_form\[j\]\[j\] is not None:\n\s+diagonal_form \+= blocked_form\[j\]\[j\]", s)
             and "forms[i] = diagonal_form" in s):
         res.fail(key, "mixed spaces: the diagonal form is not the sum of the diagonal blocks (j, j)", "ffcx/codegeneration/jit.py")
+    # diagonal mode: only blocks on the diagonal (row dofs == column dofs) may contribute
+    im = repo.mod("ffcx.ir.integral")
+    cii = im.func("_compute_integral_ir")
+    res.functions.add(cii.key)
+    key = f"{cii.key}:diagonal-skips-offdiagonal-blocks"
+    res.ob(key)
+    loop = None
+    for n in ast.walk(cii.node):
+        if isinstance(n, ast.For) and "argument_factorization.items()" in ast.unparse(n.iter):
+            loop = n
+    if loop is None:
+        raise AnalysisError("_compute_integral_ir: loop over the argument factorisation not found")
+    app = [c for c in calls_in(loop) if isinstance(c.func, ast.Attribute) and c.func.attr == "append" and isinstance(c.func.value, ast.Subscript)
+           and ast.unparse(c.func.value.value) == "block_contributions"]
+    if len(app) != 1:
+        raise AnalysisError("compute_integral_ir: block_contributions[...].append not found exactly once")
+    bm = ast.unparse(app[0].func.value.slice)
+    app_stmt = [i for i, st in enumerate(loop.body) if any(x is app[0] for x in ast.walk(st))]
+    ok = False
+    for i, st in enumerate(loop.body):
+        if not isinstance(st, ast.If) or not app_stmt or i >= app_stmt[0]:
+            continue
+        t = ast.unparse(st.test)
+        cmp_ = [c for c in ast.walk(st.test) if isinstance(c, ast.Compare) and len(c.ops) == 1 and isinstance(c.ops[0], ast.NotEq)
+                and {ast.unparse(c.left), ast.unparse(c.comparators[0])} == {f"{bm}[0]", f"{bm}[1]"}]
+        if "diagonal" in t and cmp_ and any(isinstance(b, ast.Continue) for b in st.body) and isinstance(st.test, ast.BoolOp) and isinstance(st.test.op, ast.And):
+            ok = True
+    if not ok:
+        res.fail(key, "part=\"diagonal\": every block of the argument factorisation is accumulated into the rank-1 tensor with one shared dof index, "
+                 "including blocks whose row and column dofs differ (other component or sub-element, or the two sides of an interior facet): "
+                 "jump(u)*jump(v)*dS and inner(sym(grad(u)), sym(grad(v)))*dx on mixed(P2^2, P1) do not give diag(A)", im.line(loop))
+    # sum factorisation: a 1D factor table is shared between terminals only after its values were compared
+    from ..cfg import reaching_definitions
+
+    bt = et.func("build_optimized_tables")
+    cfg_bt = CFG(bt.node)
+    IN_bt, _ = reaching_definitions(cfg_bt, set(bt.params))
+    byid = {n.id: n for n in cfg_bt.nodes}
+    apps = [c for c in calls_in(bt.node) if isinstance(c.func, ast.Attribute) and c.func.attr == "append" and ast.unparse(c.func.value) == "tensor_factors"]
+    if not apps:
+        raise AnalysisError("build_optimized_tables: tensor_factors.append not found")
+    for n_, c in enumerate(apps):
+        key = f"{bt.key}:tensor-factor-reuse:{n_}"
+        res.ob(key)
+        arg = c.args[0]
+        if not isinstance(arg, ast.Name):
+            raise AnalysisError("tensor_factors.append of a non-name")
+        site = cfg_bt.stmt_nodes_containing(c)[0].id
+        for d in IN_bt[site].get(arg.id, ()):
+            dn = byid.get(d)
+            a = dn.ast if dn is not None else None
+            if isinstance(a, ast.Assign) and isinstance(a.value, ast.Call) and (call_name(a.value) or "") == "UniqueTableReferenceT":
+                continue  # a table created for this very factor
+            # a pre-existing reference: the path to the append must pass a value comparison of it with the fresh table
+            guards = []
+            for g in ast.walk(bt.node):
+                if isinstance(g, ast.If) and any(x is c for b in g.body for x in ast.walk(b)):
+                    guards.append(g)
+            compared = False
+            for g in guards:
+                for cc in ast.walk(g.test):
+                    if isinstance(cc, ast.Call) and (call_name(cc) or "").split(".")[-1] in ("allclose", "array_equal", "equal_tables", "isclose"):
+                        txt = [ast.unparse(x) for x in cc.args]
+                        if any(t == f"{arg.id}.values" for t in txt) and len(txt) >= 2:
+                            compared = True
+            if not compared:
+                how = ast.unparse(a)[:80] if a is not None else "parameter"
+                res.fail(key, f"an existing factor table (`{how}`) is reused for this terminal without comparing its values with the freshly tabulated "
+                         "1D table: elements of equal family/degree but different node placement (gll_warped P3 arguments, equispaced P3 coefficient) "
+                         "would share one table, only when sum_factorization=True", et.line(c))
     # TOL-FLOW
     ii = repo.mod("ffcx.ir.integral").func("_compute_integral_ir")
     key = f"{ii.key}:tolerances"
